@@ -98,7 +98,7 @@ def run_case(case, tier):
         if "You must specify" in tr.error:
             mech = "preset_rejected_by_option_dispatcher"
         viol.append({"mech": mech, "msg": "%s under %s: %s" % (case["iso"], case["tag"], tr.error[:160]),
-                     "data": {"iso": case["iso"], "preset": case["tag"], "failure_class": fc,
+                     "data": {"iso": case["iso"], "preset": case["tag"], "cell": "%s|%s" % (case["iso"], case["tag"]), "failure_class": fc,
                               "where": getattr(tr, "error_where", None)}})
     else:
         pf = tr.result.percent_people_fed
